@@ -100,6 +100,15 @@ impl ToHtml for BadItem {
     }
 }
 
+/// counts how often its text is formatted: `to_html` and `to_buffer` render a value once
+pub struct Counted<'a>(pub &'a Pieces, pub std::cell::Cell<usize>);
+impl fmt::Display for Counted<'_> {
+    fn fmt(&self, f: &mut fmt::Formatter) -> fmt::Result {
+        self.1.set(self.1.get() + 1);
+        fmt::Display::fmt(self.0, f)
+    }
+}
+
 pub fn sched_str(s: &[Resp]) -> String {
     if s.is_empty() {
         return "-".into();
@@ -355,6 +364,21 @@ pub fn run(args: &crate::Args) {
             stats.hit("failing_renderings");
             if BadItem.to_buffer().is_ok() {
                 writeln!(orc, "{{\"tags\":[\"C06\",\"C14\"],\"kind\":\"failed-rendering-reported-ok\",\"case\":{i},\"detail\":\"to_buffer() of a value whose to_html fails returned Ok\"}}").unwrap();
+            }
+        }
+        if i % 11 == 5 {
+            // a value is formatted exactly once per rendering (its Display impl may be expensive, or not repeatable)
+            let p = Pieces(c.pieces.clone(), (i % 4) as u8);
+            let counted = Counted(&p, std::cell::Cell::new(0));
+            let _ = counted.to_buffer();
+            let n_buf = counted.1.replace(0);
+            let _ = Html(&counted).to_buffer();
+            let n_raw = counted.1.replace(0);
+            let _ = counted.to_html(&mut Vec::new());
+            let n_html = counted.1.get();
+            stats.hit("render_count_checked");
+            if (n_buf, n_raw, n_html) != (1, 1, 1) {
+                writeln!(orc, "{{\"tags\":[\"C06\",\"C02\"],\"kind\":\"rendered-more-than-once\",\"case\":{i},\"detail\":{}}}", jstr(&format!("Display::fmt ran {n_buf} times for to_buffer(), {n_raw} times for Html(..).to_buffer(), {n_html} times for to_html(): a value is formatted once per rendering"))).unwrap();
             }
         }
         let mut sink = Sink::new(c.sched.clone());
